@@ -122,6 +122,9 @@ class AbstractAst:
         # of the previous parse instead of adding to them
         self.specs = []
         self.var_subspec_dict = dict()
+        self.phi_name_to_node_dict = dict()
+        # every declared variable is an input again until this text assigns it
+        self.free_vars = set(self.var_type_dict)
 
         #TODO How to handle sub-formulas?
         entire_spec = self.modular_spec + self.spec
